@@ -142,7 +142,9 @@ func ExplorePool(t *testing.T, scenarios []Scenario, n int, deadline time.Time) 
 			inR, inW, _ := os.Pipe()
 			outR, outW, _ := os.Pipe()
 			cmd := exec.Command(os.Args[0], "-test.run=^"+t.Name()+"$", "-test.timeout=0", "-test.count=1")
-			cmd.Env = append(os.Environ(), "VERIF_POOL_WORKER=1", "GOMAXPROCS=1")
+			// one P and no asynchronous preemption: goroutines woken at the same virtual instant run in run-queue
+			// order until they block, so that e.g. their draws from the (seeded) global math/rand source are ordered
+			cmd.Env = append(os.Environ(), "VERIF_POOL_WORKER=1", "GOMAXPROCS=1", "GODEBUG=asyncpreemptoff=1")
 			cmd.ExtraFiles = []*os.File{inR, outW}
 			cmd.Stderr = os.Stderr
 			if err := cmd.Start(); err != nil {
